@@ -46,6 +46,17 @@ type FuncContract struct {
 	File     string
 	Line     int
 	Trust    string // assumption id for assumed contracts
+	CallNames []CallName
+}
+
+// CallName binds the result of the k-th call (in block order) whose callee
+// name contains Callee to a name usable in ensures clauses: <name> (single
+// result) or <name>0, <name>1, ... (tuple); <name>_reached tells whether the
+// call was executed.
+type CallName struct {
+	Ordinal int
+	Callee  string
+	Name    string
 }
 
 func (fc *FuncContract) Full() string { return fc.PkgName + "." + fc.Name }
@@ -78,7 +89,7 @@ type Contracts struct {
 	Order  []string
 }
 
-var keywordRe = regexp.MustCompile(`^(func|assumed|iface|spec|lemma|axiom|property|requires|ensures|modifies|loop|panics|option|let|pure|trust)\b`)
+var keywordRe = regexp.MustCompile(`^(func|assumed|iface|spec|lemma|axiom|property|requires|ensures|modifies|loop|panics|option|let|pure|trust|call)\b`)
 
 func LoadContracts(files map[string][2]string) (*Contracts, error) {
 	cs := &Contracts{Funcs: map[string]*FuncContract{}, Specs: map[string]*SpecFn{}, Lemmas: map[string]*Lemma{}, Props: map[string][]string{}}
@@ -197,6 +208,16 @@ func (cs *Contracts) loadFile(file, pkgPath, pkgName string) error {
 			cur.HasMod = true
 		case "trust":
 			cur.Trust = rest
+		case "call":
+			f := strings.Fields(rest)
+			if len(f) != 4 || f[2] != "as" {
+				return perr(fmt.Errorf("call clause: call <ordinal> <callee> as <name>"))
+			}
+			k, err := strconv.Atoi(f[0])
+			if err != nil {
+				return perr(err)
+			}
+			cur.CallNames = append(cur.CallNames, CallName{k, f[1], f[3]})
 		case "loop":
 			f := strings.Fields(rest)
 			if len(f) < 2 {
@@ -287,7 +308,7 @@ func (cs *Contracts) loadFile(file, pkgPath, pkgName string) error {
 			k := strings.Index(rest, ":")
 			id := strings.TrimSpace(rest[:k])
 			for _, n := range splitNames(rest[k+1:]) {
-				if !strings.Contains(n, "::") && !strings.HasPrefix(n, "lemma/") {
+				if !strings.Contains(n, "::") && !strings.HasPrefix(n, "lemma/") && !strings.HasPrefix(n, "structural/") {
 					n = pkgPath + "::" + n
 				}
 				cs.Props[id] = append(cs.Props[id], n)
